@@ -137,8 +137,24 @@ func RunC13(c *lib.Ctx) {
 			}
 			if wp.HistoryProof == nil || wp.HistoryProof.Index != proof.HistoryProof.Index || wp.HistoryProof.Version != proof.HistoryProof.Version ||
 				!eqHistPath(wp.HistoryProof.AuditPath, proof.HistoryProof.AuditPath) {
+				if q > cur {
+					// its own signature: the answer was built for the last version but carries the asked one
+					var a, b bool
+					lib.Recover(func() {
+						a = proof.DigestVerify(hashing.Digest(d), &balloon.Snapshot{EventDigest: d, HistoryDigest: l.Snaps[cur].HistoryDigest, HyperDigest: l.Snaps[cur].HyperDigest, Version: cur})
+					})
+					lib.Recover(func() {
+						b = wp.DigestVerify(hashing.Digest(d), &balloon.Snapshot{EventDigest: d, HistoryDigest: l.Snaps[cur].HistoryDigest, HyperDigest: l.Snaps[cur].HyperDigest, Version: cur})
+					})
+					fail(cs, "C13:membership:query-version-beyond-last:history-proof", fmt.Sprintf("the answer to a query for version %d (last version %d) is built for the last version but carries the asked one: after the round trip the history proof names version %d instead of %d; against the last snapshot the original verifies=%v, the decoded answer verifies=%v", q, cur, wp.HistoryProof.Version, proof.HistoryProof.Version, a, b))
+					c.Count("beyond_last_version_answers", 1)
+					continue // a known class: keep sampling this log
+				}
 				fail(cs, "C13:membership:history-proof", "history proof (index, version or audit path) differs after the round trip")
 				return
+			}
+			if q > cur {
+				c.Count("beyond_last_version_answers", 1)
 			}
 			if !bytes.Equal(wp.HyperProof.Key, proof.HyperProof.Key) || !reflect.DeepEqual(map[string]hashing.Digest(wp.HyperProof.AuditPath), map[string]hashing.Digest(proof.HyperProof.AuditPath)) {
 				fail(cs, "C13:membership:hyper-proof", "hyper proof (key or audit path) differs after the round trip")
